@@ -596,6 +596,9 @@ func (a *agg) finish(t0 time.Time, scratch string, planned int) int {
 	// ---- verdict lines
 	for _, v := range listed {
 		f := known[v.Sig]
+		if len(f.What) > 260 {
+			f.What = f.What[:260] + "…"
+		}
 		fmt.Printf("KNOWN-FINDING: property=%s %s: %s (seen %d times this run)\n", a.sp.Prop, v.Sig, f.What, v.Count)
 	}
 	fmt.Printf("%s %s seed=%d: %d cases, %d distinct non-trivial shapes, %d violation signature(s) (%d listed as known), %.1fs\n",
